@@ -35,12 +35,12 @@ INVARIANTS = ["Conforms", "WellFormed", "AbsPos", "ChainIsContext", "Laminar", "
               "DepthBound", "PrefixDone", "SubScan", "NoHang"]
 
 
-def family_cfg(name: str, variant: str = "fixed", invariants=None, liveness=True, gen=False) -> str:
+def family_cfg(name: str, variant: str = "fixed", invariants=None, liveness=True, gen=False, slack: int = 0) -> str:
     c = FAMILY[name]
     lines = ["CONSTANTS"]
     for k, v in c.items():
         lines.append(f" {k} = {v}")
-    lines += [f' Variant = "{variant}"', " WK <- GenK", " WTexts <- GenTexts", " WHits <- GenHits", " NWorlds <- GenN"]
+    lines += [f" Slack = {slack}", f' Variant = "{variant}"', " WK <- GenK", " WTexts <- GenTexts", " WHits <- GenHits", " NWorlds <- GenN"]
     if gen:
         lines += ["INIT Init", "NEXT Next"]
     else:
@@ -72,6 +72,15 @@ def non_vacuity(res: Result, invs: list[str]) -> None:
         r = tlc.run("ScanMC", cfg, cache=True, timeout=600)
         tlc.must_violate(r, [inv], f"ScanMC[nv, asis, {inv}]")
         res.stage(f"ScanMC[nv, Variant=asis, {inv}]", dict(r.summary(), expected_violation=inv))
+
+
+def oob_demo(res: Result) -> None:
+    """With hits allowed to end past the text the engine's context-pop loop can never exit: NoHang must fail.
+    This is the decoder-side obligation (C03, in-bounds spans) that engine totality (C01) rests on."""
+    cfg = family_cfg("nv", invariants=["NoHang"], liveness=False, slack=1)
+    r = tlc.run("ScanMC", cfg, cache=True, timeout=600)
+    tlc.must_violate(r, ["NoHang"], "ScanMC[nv, Slack=1]")
+    res.stage("ScanMC[nv, hits may end past the text] (NoHang must fail)", dict(r.summary(), expected_violation="NoHang"))
 
 
 # ------------------------------------------------------------------------------------------
